@@ -123,7 +123,10 @@ def _check_huge(case):
     from .. import rec
     n, nsw = case['n'], 9
     with env.scratch() as d:
-        R = rec.SparseRecording(d, n, nch=3, dtype='int16', block=200, salt=case['salt'])
+        try:
+            R = rec.SparseRecording(d, n, nch=3, dtype='int16', block=200, salt=case['salt'])
+        except OSError as e:
+            raise core.Reject('the scratch file system cannot hold a sparse file of this size: %s' % e)
         r = must_return('get_ephys_reader', get_ephys_reader, R.path, n_channels=3,
                         dtype=np.int16, sample_rate=30000.)
         try:
